@@ -86,7 +86,8 @@ MANIFEST_ENTRY = {
                   "every step, a third on a clock that also steps back) re-read every retained snapshot after every step and every "
                   "collection with an independent reader; lookups compared with the model and independent references on every history; "
                   "every collection compared with the collector model, the content model and the regenerated roots",
-    "level_note": "PARTIAL for the by-timestamp sentence of the property: with commit timestamps that decrease (wall clock stepping "
+    "level_note": "IN-PLACE MUTATION of a manifest / data file is not expressible in the Coq history machine (its commits write fresh keys by construction: valid_commit; bodies are constants) -- C09_retained_content_stable therefore covers over-eager collection and metadata edits, and the no-rewrite half of the property is judged by the oracle (bytes of every existing immutable file compared after every step). "
+                  "PARTIAL for the by-timestamp sentence of the property: with commit timestamps that decrease (wall clock stepping "
                   "back, a second writer with a lagging clock) get_snapshot_by_timestamp returns the snapshot with the greatest "
                   "timestamp <= t, not the most recently committed one (C09_by_timestamp_refuted; DESIGN.md C09 interpretation: clock "
                   "regressions are outside the property's histories); trusted: Coq kernel; translator/gen_gcroots.py, "
@@ -242,6 +243,7 @@ def run_history(ctx, seed: int, length: int, script: Optional[List[str]] = None,
             new = t.metadata_manager.refresh()
             new.properties[RET_KEY] = str(opts["retention"])
             t.metadata_manager.commit(t.metadata_manager.refresh(), new)
+        file_digest: Dict[str, str] = {}
         recorded: Dict[int, Tuple[Tuple[str, ...], Tuple[int, ...]]] = {}
         frozen: Dict[int, Tuple[Any, Any, Any]] = {}
         nextv = [0]
@@ -535,6 +537,14 @@ def run_history(ctx, seed: int, length: int, script: Optional[List[str]] = None,
                 viol.append(f"step {step} ({op}) raised {type(e).__name__}: {e}"[:300])
                 break
             stats["steps"] += 1
+            # IN-PLACE MUTATION: a data file, manifest, manifest list or metadata version file that exists keeps its bytes for as
+            # long as it exists -- whatever snapshot still names it is then unchanged by this step (checked on every step, the
+            # sparse ones of the long histories included; the pointer file is the one object that is rewritten by design)
+            changed = immutable_files_changed(root, file_digest)
+            if changed:
+                viol.append(f"step {step} ({op}) rewrote existing files in place: {changed[:3]}")
+                break
+            stats["immutable_file_checks"] = stats.get("immutable_file_checks", 0) + len(file_digest)
             sparse = opts.get("judge_sparse")
             if sparse and not (step % sparse == 0 or step >= (len(script) if script is not None else length) - 6):
                 continue          # long histories: the full re-read of every retained snapshot every `sparse` steps and at the end
@@ -598,6 +608,33 @@ def violation_key(v: str) -> str:
     return (what + (":" + after if after else ""))[:60]
 
 
+def immutable_files_changed(root: str, seen: Dict[str, str]) -> List[str]:
+    """Digest every file under data/, metadata/manifests/ and every metadata version file; returns the paths whose bytes differ
+    from what `seen` recorded for them (and records the rest).  Files that disappeared are simply forgotten."""
+    import hashlib
+    now: Dict[str, str] = {}
+    for rel_dir in ("data", "metadata/manifests", "metadata"):
+        d = os.path.join(root, rel_dir)
+        if not os.path.isdir(d):
+            continue
+        for base, dirs, files in os.walk(d):
+            if rel_dir == "metadata":
+                dirs[:] = []                      # (only the version files directly in metadata/)
+            for n in files:
+                if rel_dir == "metadata" and not n.endswith(".metadata.json"):
+                    continue
+                pth = os.path.join(base, n)
+                try:
+                    with open(pth, "rb") as f:
+                        now[os.path.relpath(pth, root)] = hashlib.sha1(f.read()).hexdigest()
+                except OSError:
+                    pass
+    changed = sorted(k for k, v in now.items() if k in seen and seen[k] != v)
+    seen.clear()
+    seen.update(now)
+    return changed
+
+
 def harvest_history_constants(lo: int = 16, hi: int = 128) -> List[int]:
     """Integer literals lo..hi of the modules that write snapshots, manifests and metadata versions (ast walk; nothing hard-coded)."""
     import ast
@@ -650,7 +687,10 @@ def run(ctx) -> None:
                 "the flip)}, half of them with a collection after EVERY step, a third on one reused Transaction object, with a "
                 "scripted clock (equal timestamps frequent); every retained snapshot re-read after every step and after every "
                 "collection; plus LONG histories (one more commit than every small integer constant of the writer modules, harvested "
-                "from the source) re-read every 25 steps and at the end; distinct = (seed, step)")
+                "from the source) re-read every 25 steps and at the end; after EVERY step of every history the bytes of every "
+                "existing data file, manifest, manifest list and metadata version file are compared with what they were (no in-place "
+                "rewrite: the half of the property the model cannot express, its commits being fresh-key by construction); "
+                "distinct = (seed, step)")
     ctx.trusted_base += ["harness/props/c09.py + harness/lib/protocol.py independent reader (json, fastavro, pyarrow)",
                          "translator/gen_gcroots.py (Python ast -> Gallina for the loop of collect() that selects the manifest lists to open)",
                          "harness/lib/gcsim.py (directory -> Model/GC.v store; traced storage; frozen clock) as in C05"]
